@@ -207,6 +207,91 @@ func pipeWorker(tb []byte, progress func()) []byte {
 	return b
 }
 
+// ------------------------------------------------------------------ (c) commands on a subscribed connection
+
+// runSubscriberScripts: "one reply per command, Pub/Sub pushes aside".  A connection subscribes, a
+// second connection publishes (the subscriber receives the push), virtual time passes (0, 300 ms,
+// 2 s), the subscriber sends each command of the pipeline alphabet, a second push arrives, time
+// passes again and the subscriber sends PING: every command must get exactly one well-formed reply,
+// whatever the server did to the connection while delivering the pushes.
+func runSubscriberScripts(rep *ev.Report) (int, string) {
+	h.Boot(shardNum, 1)
+	rt.CurMode = rt.Free
+	n := 0
+	viol := 0
+	sample := ""
+	for _, adv1 := range []int64{0, 300, 2000} {
+		for _, adv2 := range []int64{0, 300} {
+			for _, cmd := range pipeAlphabet {
+				if viol >= 4 {
+					return n, sample
+				}
+				n++
+				w := rt.NewWorld()
+				mgr := h.NewManager()
+				ctx, cancel := context.WithCancel(context.Background())
+				sub, pub := h.NewConn("sub"), h.NewConn("pub")
+				go mgr.Handle(ctx, sub)
+				go mgr.Handle(ctx, pub)
+				script := fmt.Sprintf("SUBSCRIBE ch ; (other connection) PUBLISH ch m1 ; +%d ms ; %q ; PUBLISH ch m2 ; +%d ms ; PING", adv1, cmd, adv2)
+				bad := func(kind, detail string) {
+					viol++
+					rep.Add(&ev.Violation{Engine: "seqmc/c03", Kind: kind, Cmd: strings.ToLower(cmd[0]), Shape: fmt.Sprintf("subscriber,+%dms,+%dms", adv1, adv2),
+						Detail: "subscriber script [" + script + "]: " + detail,
+						Replay: map[string]interface{}{"engine": "seqmc", "prop": "C03", "subscriber_script": script}})
+				}
+				step := func(c *h.Conn, args []string, what string) bool {
+					c.Send(model.EncodeCommand(h.B(args...)))
+					_, _, st := c.TakeReply(10 * time.Second)
+					if st != "ok" {
+						bad("no-reply", fmt.Sprintf("%s: %q gets no well-formed reply (%s)", what, args, st))
+						return false
+					}
+					return true
+				}
+				push := func(what string) bool {
+					if _, _, st := sub.TakeReply(10 * time.Second); st != "ok" {
+						bad("push-lost", what+": the subscriber does not receive the published message ("+st+")")
+						return false
+					}
+					return true
+				}
+				ok := step(sub, []string{"SUBSCRIBE", "ch"}, "subscribe") &&
+					step(pub, []string{"PUBLISH", "ch", "m1"}, "first publish") && push("first push")
+				if ok {
+					w.Advance(adv1 * 1e6)
+					ok = step(sub, cmd, "command on the subscribed connection after the first push")
+				}
+				if ok {
+					ok = step(pub, []string{"PUBLISH", "ch", "m2"}, "second publish") && push("second push")
+				}
+				if ok {
+					w.Advance(adv2 * 1e6)
+					ok = step(sub, []string{"PING"}, "PING on the subscribed connection after the second push")
+				}
+				if ok {
+					sub.EOF()
+					sub.WaitClosed(5 * time.Second)
+					if extra := sub.Output(); len(extra) > 0 {
+						bad("extra-bytes", fmt.Sprintf("%d bytes after the last reply: %q", len(extra), extra))
+					}
+				}
+				sub.EOF()
+				pub.EOF()
+				cancel()
+				if p := rt.TakeFreePanics(); len(p) > 0 {
+					bad("panic", fmt.Sprintf("panic %s in %s", p[0].Value, p[0].Func))
+				}
+				if sample == "" {
+					sample = "subscriber script [" + script + "]"
+				}
+				w.Kill()
+			}
+		}
+	}
+	return n, sample
+}
+
 // runAliasProbe: replies are produced for one connection while other connections' handlers run
 // concurrently, so the bytes of a reply must stay intact after *later* replies have been built.
 // Every reply of a batch of reads (pairs of keys holding different payloads of equal length) is
@@ -293,9 +378,9 @@ func runC03() int {
 	spec := getSpec("C03", tier)
 	cov := runSpecInto(rep, "C03", tier, spec)
 	// (b)
-	plen := 2
+	plen := 3 // (a Pub/Sub push followed by a later command on the subscriber needs three steps)
 	if tier == "thorough" {
-		plen = 3
+		plen = 4
 	}
 	p := &pool.Pool{Handler: "c03pipe", N: nWorkers(), Timeout: 60 * time.Second, MemMB: 3072}
 	var tasks [][]byte
@@ -329,6 +414,8 @@ func runC03() int {
 	})
 	aliasN, aliasSample := runAliasProbe(rep)
 	samples = append(samples, aliasSample)
+	subN, subSample := runSubscriberScripts(rep)
+	samples = append(samples, subSample)
 	tr, _ := cov["transitions"].(int)
 	tr += aliasN
 	mu, _ := cov["mutating_transitions"].(int)
@@ -345,6 +432,7 @@ func runC03() int {
 		"pipeline_runs":        runs,
 		"pipeline_max_len":     plen,
 		"alias_probe_replies":  aliasN,
+		"subscriber_scripts":   subN,
 		"poisoned_states":      cov["poisoned_states"],
 	}
 	return rep.Finish(out, seqAssumptions)
